@@ -167,6 +167,10 @@ pub fn unit_table(tier: Tier) -> Vec<Unit> {
                         if group > 0 && !kind_has_import_groups(tier, kind) {
                             continue;
                         }
+                        // record literals: the import forms of DESIGN only
+                        if group > FULL_PFORMS && kind == Kind::RecLit {
+                            continue;
+                        }
                         v.push(Unit::Probes { tree: t, placement: p, site, kind, group });
                     }
                 }
